@@ -33,6 +33,8 @@ type Prog struct {
 	CanonA, CanonB int      // statements rewritten by canonicalise (if-panic -> Assert, else-after-terminator flattened)
 	Inlined        int      // calls of helpers unknown at the pinned commit that were virtually inlined
 	NewFuncs       []string // those helpers
+	Renamed        []string // anchors resolved to a renamed successor
+	renameMemo     map[string]*ast.FuncDecl
 	inlRanges      []inlRange
 	declIdx        map[types.Object]*ast.FuncDecl
 }
@@ -93,6 +95,7 @@ func loadProg(repo string) (*Prog, error) {
 	// the SSA form is built from the parsed trees as they are; only then are the trees canonicalised for the AST/CFG rules
 	p.SSA()
 	if os.Getenv("YAE_NO_CANON") == "" {
+		p.resolveRenames() // before inlining: a renamed successor is an anchor, not a helper to dissolve
 		p.inlineNewHelpers()
 		p.canonicalise()
 	}
@@ -183,7 +186,109 @@ func (p *Prog) FuncDecl(sp, name string) *ast.FuncDecl {
 			}
 		}
 	}
-	return nil
+	full := sp + "." + name
+	if recv != "" {
+		full = sp + "." + recv + "." + name
+	}
+	return p.renamedFunc(sp, full)
+}
+
+// callersTable: unexported function -> sorted list of the functions of its own package whose body calls it.
+func (p *Prog) callersTable() map[string][]string {
+	out := map[string]map[string]bool{}
+	p.eachFuncDecl(func(pk *packages.Package, fd *ast.FuncDecl) {
+		if fd.Body == nil {
+			return
+		}
+		caller := fnName(short(pk.PkgPath), fd)
+		ast.Inspect(fd.Body, func(x ast.Node) bool {
+			ce, ok := x.(*ast.CallExpr)
+			if !ok {
+				return true
+			}
+			f, ok := p.calleeObj(ce).(*types.Func)
+			if !ok || f.Pkg() == nil || f.Pkg() != pk.Types || f.Exported() {
+				return true
+			}
+			if cd := p.declOf(f); cd != nil {
+				n := fnName(short(pk.PkgPath), cd)
+				if out[n] == nil {
+					out[n] = map[string]bool{}
+				}
+				out[n][caller] = true
+			}
+			return true
+		})
+	})
+	res := map[string][]string{}
+	for n, m := range out {
+		for c := range m {
+			res[n] = append(res[n], c)
+		}
+		sort.Strings(res[n])
+	}
+	return res
+}
+
+// renamedFunc: an anchored unexported function is missing. If exactly one function that did not exist at the pinned commit
+// is called from exactly the places the missing one was called from (recursion aside), it is its renamed successor.
+func (p *Prog) renamedFunc(sp, full string) *ast.FuncDecl {
+	want := knownCallers[full]
+	if len(want) == 0 {
+		return nil
+	}
+	if p.renameMemo == nil {
+		p.renameMemo = map[string]*ast.FuncDecl{}
+	}
+	if fd, ok := p.renameMemo[full]; ok {
+		return fd
+	}
+	p.renameMemo[full] = nil
+	now := p.callersTable()
+	wantSet := map[string]bool{}
+	for _, c := range want {
+		if c != full {
+			wantSet[c] = true
+		}
+	}
+	if len(wantSet) == 0 {
+		return nil
+	}
+	var cands []string
+	for n, cs := range now {
+		if knownFuncs[n] || !strings.HasPrefix(n, sp+".") {
+			continue
+		}
+		got := map[string]bool{}
+		for _, c := range cs {
+			if c != n {
+				got[c] = true
+			}
+		}
+		same := len(got) == len(wantSet)
+		for c := range wantSet {
+			if !got[c] {
+				same = false
+			}
+		}
+		if same {
+			cands = append(cands, n)
+		}
+	}
+	if len(cands) != 1 {
+		return nil
+	}
+	var res *ast.FuncDecl
+	p.eachFuncDecl(func(pk *packages.Package, fd *ast.FuncDecl) {
+		if fnName(short(pk.PkgPath), fd) == cands[0] {
+			res = fd
+		}
+	})
+	p.renameMemo[full] = res
+	if res != nil {
+		p.Renamed = append(p.Renamed, full+" -> "+cands[0])
+	}
+	return res
 }
 
 // Obj resolves a package-level object by name.
@@ -343,4 +448,32 @@ func (p *Prog) declOf(f *types.Func) *ast.FuncDecl {
 		return nil
 	}
 	return p.declIdx[f.Origin()]
+}
+
+// resolveRenames looks up every unexported function that was called somewhere at the pinned commit and is missing now.
+func (p *Prog) resolveRenames() {
+	var names []string
+	for n := range knownCallers {
+		names = append(names, n)
+	}
+	sort.Strings(names)
+	for _, full := range names {
+		i := strings.LastIndex(full, "/")
+		rest := full[i+1:]
+		j := strings.Index(rest, ".")
+		if j < 0 {
+			continue
+		}
+		sp := full[:i+1] + rest[:j]
+		p.FuncDecl(sp, rest[j+1:])
+	}
+}
+
+func (p *Prog) isRenamedSuccessor(fd *ast.FuncDecl) bool {
+	for _, r := range p.renameMemo {
+		if r == fd {
+			return true
+		}
+	}
+	return false
 }
